@@ -296,3 +296,70 @@ Proof.
     { rewrite <- grid_count, <- (map_length tag_of es), Htags, map_length. reflexivity. }
     rewrite El. exact Hp.
 Qed.
+
+(* ------------------------------------------------------------------ termination statuses other than FAILED *)
+Lemma reduce2_not_failed a b : a <> Failed -> b <> Failed -> reduce_statuses [a; b] <> Failed.
+Proof. intros Ha Hb. destruct a, b; simpl; try discriminate; congruence. Qed.
+
+(* whatever statuses the two termination tokens carry, as long as none is FAILED, the step ends with the same data:
+   the tokens processed in arrival order, then the forced gather of the keys never completed *)
+Lemma run_terms_gd d l1 l2 p1 p2 st1 st2 :
+  (forall a, In a (l1 ++ l2) -> is_term a = false) ->
+  p1 <> p2 -> (forall a, In a l2 -> port_of a <> p1) ->
+  st1 <> Failed -> st2 <> Failed ->
+  let dd := fold_left (data_step d) (l1 ++ l2) dinit in
+  let s := gather_run d (l1 ++ OnTerm p1 st1 :: l2 ++ [OnTerm p2 st2]) in
+  let stf := reduce_statuses [reduce_statuses [Skipped; st1]; st2] in
+  gd s = forced_gather dd /\
+  gfinal s = Some (get_status stf (match gout (forced_gather dd) with [] => true | _ => false end)).
+Proof.
+  intros Hnt Hne Hl2 H1 H2 dd s stf.
+  assert (R : s = gather_step d (fold_left (gather_step d) l2
+                     (gather_step d (fold_left (gather_step d) l1 ginit) (OnTerm p1 st1)))
+                   (OnTerm p2 st2)).
+  { subst s. unfold gather_run. rewrite fold_left_app. simpl. rewrite fold_left_app. reflexivity. }
+  assert (E1 : fold_left (gather_step d) l1 ginit =
+               {| gd := fold_left (data_step d) l1 dinit; sopen := true; eopen := true;
+                  gstatus := Skipped; gfinal := None |}).
+  { rewrite fold_tokens; [reflexivity|].
+    intros a Ha. split; [apply Hnt; apply in_or_app; left; exact Ha|]. destruct (port_of a); reflexivity. }
+  assert (E2 : gather_step d {| gd := fold_left (data_step d) l1 dinit; sopen := true; eopen := true;
+                                gstatus := Skipped; gfinal := None |} (OnTerm p1 st1) =
+               {| gd := fold_left (data_step d) l1 dinit;
+                  sopen := negb (gport_eqb p1 SizeP); eopen := negb (gport_eqb p1 ElemP);
+                  gstatus := reduce_statuses [Skipped; st1]; gfinal := None |}).
+  { destruct p1; reflexivity. }
+  assert (E3 : fold_left (gather_step d) l2
+                 {| gd := fold_left (data_step d) l1 dinit;
+                    sopen := negb (gport_eqb p1 SizeP); eopen := negb (gport_eqb p1 ElemP);
+                    gstatus := reduce_statuses [Skipped; st1]; gfinal := None |} =
+               {| gd := dd; sopen := negb (gport_eqb p1 SizeP); eopen := negb (gport_eqb p1 ElemP);
+                  gstatus := reduce_statuses [Skipped; st1]; gfinal := None |}).
+  { rewrite fold_tokens.
+    - simpl. unfold dd. rewrite fold_left_app. reflexivity.
+    - intros a Ha. split; [apply Hnt; apply in_or_app; right; exact Ha|].
+      specialize (Hl2 a Ha). destruct p1, (port_of a); simpl; congruence. }
+  assert (NF : stf <> Failed).
+  { apply reduce2_not_failed; [|exact H2]. apply reduce2_not_failed; [discriminate|exact H1]. }
+  assert (EF : finish dd stf = (forced_gather dd, get_status stf (match gout (forced_gather dd) with [] => true | _ => false end))).
+  { unfold finish. destruct stf; try reflexivity. contradiction. }
+  assert (E4 : gather_step d {| gd := dd; sopen := negb (gport_eqb p1 SizeP); eopen := negb (gport_eqb p1 ElemP);
+                                gstatus := reduce_statuses [Skipped; st1]; gfinal := None |} (OnTerm p2 st2) =
+               {| gd := fst (finish dd stf); sopen := false; eopen := false; gstatus := stf;
+                  gfinal := Some (snd (finish dd stf)) |}).
+  { destruct p1, p2; try congruence; reflexivity. }
+  rewrite R, E1, E2, E3, E4, EF. simpl. split; reflexivity.
+Qed.
+
+Lemma gout_status_independent d l1 l2 p1 p2 st1 st2 st1' st2' :
+  (forall a, In a (l1 ++ l2) -> is_term a = false) ->
+  p1 <> p2 -> (forall a, In a l2 -> port_of a <> p1) ->
+  st1 <> Failed -> st2 <> Failed -> st1' <> Failed -> st2' <> Failed ->
+  gout (gd (gather_run d (l1 ++ OnTerm p1 st1 :: l2 ++ [OnTerm p2 st2]))) =
+  gout (gd (gather_run d (l1 ++ OnTerm p1 st1' :: l2 ++ [OnTerm p2 st2']))).
+Proof.
+  intros Hnt Hne Hl2 A B C D.
+  destruct (run_terms_gd d l1 l2 p1 p2 st1 st2 Hnt Hne Hl2 A B) as [G1 _].
+  destruct (run_terms_gd d l1 l2 p1 p2 st1' st2' Hnt Hne Hl2 C D) as [G2 _].
+  rewrite G1, G2. reflexivity.
+Qed.
